@@ -58,7 +58,9 @@ pub fn handle(op: &str, a: &[&str]) -> Option<Resp> {
             let r = strip_pgp_signature(&text);
             // the property's oracle, applicable when the side conditions hold
             let side = hs.iter().all(|h| line_ok(h) && !h.is_empty())
-                && ps.iter().all(|p| line_ok(p) && p != BEGIN_SIG)
+                // payload lines "that need no dash-escaping (none begins with '-')": the property
+                // says nothing about a payload line starting with '-' (a reader may unescape it)
+                && ps.iter().all(|p| line_ok(p) && !p.starts_with('-'))
                 && sg.iter().all(|s| line_ok(s) && s != END_SIG)
                 && extra.iter().all(|s| line_ok(s));
             let mut fail = None;
@@ -130,6 +132,29 @@ pub fn generate(tier: &str, seed: u64, out: &mut Out) {
             }
         }
     }
+    // dash-led lines outside the payload ("- " is the dash-escape prefix of RFC 4880, which only
+    // applies to payload lines): armour headers and signature lines starting with "- ", a signature
+    // line that would be the end marker once "unescaped" (after seeded change C19-r5m1)
+    let hpool2 = ["- ", "- Hash: x"];
+    let spool2 = ["- iQIz", "- -----END PGP SIGNATURE-----", "- ", "iQIz", "-"];
+    let hss2 = lists_upto(&hpool2, 2);
+    let pss2 = lists_upto(&["a"], 1);
+    let sgs2 = lists_upto(&spool2, 2);
+    for hs in &hss2 {
+        for ps in &pss2 {
+            for sg in &sgs2 {
+                let total = 3 + hs.len() + ps.len() + sg.len() + 1;
+                let base = [elist(hs), elist(ps), elist(sg)];
+                out.req("pgp.wrap", &[base[0].clone(), base[1].clone(), base[2].clone(), "all".into(), "".into()]);
+                for k in 0..total {
+                    out.req("pgp.wrap", &[base[0].clone(), base[1].clone(), base[2].clone(), k.to_string(), "".into()]);
+                }
+                for t in ["", "- ", "- -----END PGP SIGNATURE-----"] {
+                    out.req("pgp.wrap", &[base[0].clone(), base[1].clone(), base[2].clone(), "all".into(), elist(&[t])]);
+                }
+            }
+        }
+    }
     // raw texts: the repo's InRelease file cut at every byte boundary that is a char boundary
     // (quick: every 7th), CRLF variants, missing final newline, marker look-alikes
     let inrelease = std::fs::read_to_string("/repo/debian-control/src/testdata/InRelease").unwrap_or_default();
@@ -145,6 +170,7 @@ pub fn generate(tier: &str, seed: u64, out: &mut Out) {
     let mut rng = Rng::new(seed);
     let frag = [
         BEGIN_MSG, BEGIN_SIG, END_SIG, "", "a", "\r", "Hash: x", " ", "-", "é", "Version: GnuPG v1",
+        "- ", "- x", "- -----END PGP SIGNATURE-----", "- -----BEGIN PGP SIGNATURE-----",
     ];
     let n = if thorough { 200_000 } else { 20_000 };
     for _ in 0..n {
